@@ -129,6 +129,18 @@ Notation "'do' '(' x ',' s ')' '<-' a ';' b" :=
   (match a with Some (x, s) => b | None => None end)
     (at level 200, x name, s name, a at level 100, b at level 200).
 
+(* parseMemberExpressionRest *)
+Fixpoint member_rest (f : nat) (e : expr) (s : pst) : R :=
+  match f with O => None | S f =>
+    if tnl (cur s) then Some (e, s)
+    else if at_kind s KDot || at_kind s KBangDot then
+      let asrt := at_kind s KBangDot in
+      let s1 := advance s in
+      let '(nm, s2) := parse_right_side_of_dot s1 in
+      member_rest f (ESel e nm asrt (epos e) (node_pos s2)) s2
+    else Some (e, s)
+  end.
+
 Fixpoint parse_expression (f : nat) (s : pst) : R :=
   match f with O => None | S f =>
     do (e, s1) <- parse_assign f s;
@@ -193,16 +205,6 @@ with parse_unary (f : nat) (s : pst) : R :=
       do (e, s1) <- parse_primary f s;
       do (e2, s2) <- member_rest f e s1;
       call_rest f e2 s2
-  end
-with member_rest (f : nat) (e : expr) (s : pst) : R :=
-  match f with O => None | S f =>
-    if tnl (cur s) then Some (e, s)
-    else if at_kind s KDot || at_kind s KBangDot then
-      let asrt := at_kind s KBangDot in
-      let s1 := advance s in
-      let '(nm, s2) := parse_right_side_of_dot s1 in
-      member_rest f (ESel e nm asrt (epos e) (node_pos s2)) s2
-    else Some (e, s)
   end
 with call_rest (f : nat) (e : expr) (s : pst) : R :=
   match f with O => None | S f =>
